@@ -151,3 +151,205 @@ theorem extractGid_ok (tags : List Tag) (g : Bytes) (h : extractGid tags = .ok g
           · rw [if_neg hb] at h; cases h
 
 end MdkVerif.Tags
+
+namespace MdkVerif.Tags
+open MdkVerif.Codec List
+
+/-! ### key-package tag validators -/
+
+theorem isHexU16_iff (v : Bytes) :
+    isHexU16 v = true ↔ ∃ c d e f, v = [48, 120, c, d, e, f] ∧ isHexDigit c = true ∧ isHexDigit d = true ∧
+      isHexDigit e = true ∧ isHexDigit f = true := by
+  constructor
+  · intro h
+    match v, h with
+    | [a, b, c, d, e, f], h =>
+      simp only [isHexU16, Bool.and_eq_true, beq_iff_eq] at h
+      obtain ⟨⟨⟨⟨⟨rfl, rfl⟩, h1⟩, h2⟩, h3⟩, h4⟩ := h
+      exact ⟨c, d, e, f, rfl, h1, h2, h3, h4⟩
+  · rintro ⟨c, d, e, f, rfl, h1, h2, h3, h4⟩
+    simp [isHexU16, h1, h2, h3, h4]
+
+theorem lowerAscii_eq_digit (c k : Nat) (hk : 48 ≤ k ∧ k ≤ 57) (h : lowerAscii c = k) : c = k := by
+  unfold lowerAscii at h
+  split at h <;> omega
+
+theorem csOk_iff (t : Tag) : csOk t = true ↔ t.content = some Generated.kpCiphersuiteTag := by
+  have hcs : Generated.kpCiphersuiteTag = [48, 120, 48, 48, 48, 49] := by decide
+  constructor
+  · intro h
+    unfold csOk at h
+    cases hc : t.content with
+    | none => simp [hc] at h
+    | some v =>
+      simp only [hc, Bool.and_eq_true, beq_iff_eq] at h
+      obtain ⟨c, d, e, f, rfl, _⟩ := (isHexU16_iff v).mp h.1
+      have h2 := h.2
+      rw [hcs] at h2
+      simp only [lower, List.map_cons, List.map_nil, List.cons.injEq, and_true] at h2
+      obtain ⟨_, _, hc', hd, he, hf⟩ := h2
+      have e1 : lowerAscii 48 = 48 := by decide
+      have e2 : lowerAscii 49 = 49 := by decide
+      rw [e1] at hc' hd he; rw [e2] at hf
+      rw [lowerAscii_eq_digit c 48 (by omega) hc', lowerAscii_eq_digit d 48 (by omega) hd,
+          lowerAscii_eq_digit e 48 (by omega) he, lowerAscii_eq_digit f 49 (by omega) hf, hcs]
+  · intro h
+    unfold csOk
+    rw [h]
+    decide
+
+theorem extOk_iff (t : Tag) :
+    extOk t = true ↔ t.vals ≠ [] ∧ (∀ v ∈ t.vals, isHexU16 v = true) ∧
+      ∀ r ∈ Generated.kpRequiredExtensionTags, ∃ v ∈ t.vals, lower v = r := by
+  unfold extOk
+  simp only [Bool.and_eq_true, Bool.not_eq_true', List.isEmpty_eq_false_iff, List.all_eq_true,
+    List.contains_iff_mem, List.mem_map, and_assoc]
+
+theorem relaysOk_iff (env : Env) (t : Tag) :
+    relaysOk env t = true ↔ t.vals ≠ [] ∧ ∀ v ∈ t.vals, (env.relayParse v).isSome = true := by
+  unfold relaysOk
+  simp only [Bool.and_eq_true, Bool.not_eq_true', List.isEmpty_eq_false_iff, List.all_eq_true]
+
+theorem iOk_iff (t : Tag) :
+    iOk t = true ↔ ∃ v, t.vals = [v] ∧ v ≠ [] ∧ (hexDec v).isSome = true := by
+  unfold iOk
+  constructor
+  · intro h
+    match hv : t.vals, h with
+    | [v], h =>
+      simp only [Bool.and_eq_true, Bool.not_eq_true', List.isEmpty_eq_false_iff] at h
+      exact ⟨v, rfl, h.1, h.2⟩
+  · rintro ⟨v, hv, h1, h2⟩
+    simp [hv, h1, h2]
+
+/-- the explicit acceptance predicate of `validate_key_package_tags` -/
+structure KpTagsSpec (env : Env) (tags : List Tag) : Prop where
+  /-- the first `mls_protocol_version` tag carries exactly "1.0" -/
+  pv : ∃ t, firstTag .protoVer tags = some t ∧ t.content = some Generated.kpProtocolVersion
+  /-- the first `mls_ciphersuite` tag carries exactly "0x0001" (the case-insensitive comparison in the
+      source cannot accept anything else: the prefix `0x` is matched exactly and the digits have no case) -/
+  cs : ∃ t, firstTag .ciphersuite tags = some t ∧ t.content = some Generated.kpCiphersuiteTag
+  /-- the first `mls_extensions` tag: ≥ 1 value, all of the form 0xHHHH, containing every required one
+      up to the case of the hex digits -/
+  ext : ∃ t, firstTag .extensions tags = some t ∧ t.vals ≠ [] ∧ (∀ v ∈ t.vals, isHexU16 v = true) ∧
+          ∀ r ∈ Generated.kpRequiredExtensionTags, ∃ v ∈ t.vals, lower v = r
+  /-- the first `relays` tag: ≥ 1 value, every value a relay URL -/
+  relays : ∃ t, firstTag .relays tags = some t ∧ t.vals ≠ [] ∧ ∀ v ∈ t.vals, (env.relayParse v).isSome = true
+  /-- the first `i` tag: exactly one value, non-empty, hex -/
+  i : ∃ t v, firstTag .i tags = some t ∧ t.vals = [v] ∧ v ≠ [] ∧ (hexDec v).isSome = true
+
+theorem kpTagsOk_iff (env : Env) (tags : List Tag) : kpTagsOk env tags = true ↔ KpTagsSpec env tags := by
+  unfold kpTagsOk
+  constructor
+  · intro h
+    cases h1 : firstTag .protoVer tags with
+    | none => simp [h1] at h
+    | some pv =>
+    cases h2 : firstTag .ciphersuite tags with
+    | none => simp [h1, h2] at h
+    | some cs =>
+    cases h3 : firstTag .extensions tags with
+    | none => simp [h1, h2, h3] at h
+    | some ext =>
+    cases h4 : firstTag .relays tags with
+    | none => simp [h1, h2, h3, h4] at h
+    | some rl =>
+    cases h5 : firstTag .i tags with
+    | none => simp [h1, h2, h3, h4, h5] at h
+    | some it =>
+      simp only [h1, h2, h3, h4, h5, Bool.and_eq_true] at h
+      obtain ⟨⟨⟨⟨a, b⟩, c⟩, d⟩, e⟩ := h
+      have a' : pv.content = some Generated.kpProtocolVersion := by simpa [pvOk] using a
+      obtain ⟨v, e1, e2, e3⟩ := (iOk_iff it).mp e
+      exact ⟨⟨pv, h1, a'⟩, ⟨cs, h2, (csOk_iff cs).mp b⟩, ⟨ext, h3, (extOk_iff ext).mp c⟩,
+             ⟨rl, h4, (relaysOk_iff env rl).mp d⟩, ⟨it, v, h5, e1, e2, e3⟩⟩
+  · rintro ⟨⟨pv, h1, a⟩, ⟨cs, h2, b⟩, ⟨ext, h3, c⟩, ⟨rl, h4, d⟩, ⟨it, v, h5, e⟩⟩
+    have a' : pvOk pv = true := by simp [pvOk, a]
+    simp only [h1, h2, h3, h4, h5, a', (csOk_iff cs).mpr b, (extOk_iff ext).mpr c,
+      (relaysOk_iff env rl).mpr d, (iOk_iff it).mpr ⟨v, e⟩, Bool.and_self]
+
+theorem parseKp_ok_iff (env : Env) (ev : KpEvent) :
+    parseKp env ev = .ok ↔
+      ev.kind = Generated.kindMlsKeyPackage ∧ kpTagsOk env ev.tags = true ∧ hasBase64Encoding ev.tags = true ∧
+      ev.content = .ok ∧ ev.credIdentity.length = 32 ∧ ev.credIdentity = ev.author ∧
+      iTagBytes ev.tags = some ev.kpRef := by
+  unfold parseKp
+  by_cases h1 : ev.kind ≠ Generated.kindMlsKeyPackage
+  · rw [if_pos h1]; constructor
+    · intro h; cases h
+    · intro h; exact absurd h.1 h1
+  · rw [if_neg h1]
+    have h1' : ev.kind = Generated.kindMlsKeyPackage := by simpa using h1
+    by_cases h2 : kpTagsOk env ev.tags = false
+    · rw [if_pos h2]; constructor
+      · intro h; cases h
+      · intro h; rw [h.2.1] at h2; cases h2
+    · rw [if_neg h2]
+      have h2' : kpTagsOk env ev.tags = true := by simpa using h2
+      by_cases h3 : hasBase64Encoding ev.tags = false
+      · rw [if_pos h3]; constructor
+        · intro h; cases h
+        · intro h; rw [h.2.2.1] at h3; cases h3
+      · rw [if_neg h3]
+        have h3' : hasBase64Encoding ev.tags = true := by simpa using h3
+        cases hc : ev.content with
+        | notBase64 => simp
+        | badMls => simp
+        | ok =>
+          simp only
+          by_cases h4 : ev.credIdentity.length ≠ 32
+          · rw [if_pos h4]; constructor
+            · intro h; cases h
+            · intro h; exact absurd h.2.2.2.2.1 h4
+          · rw [if_neg h4]
+            have h4' : ev.credIdentity.length = 32 := by simpa using h4
+            by_cases h5 : ev.credIdentity ≠ ev.author
+            · rw [if_pos h5]; constructor
+              · intro h; cases h
+              · intro h; exact absurd h.2.2.2.2.2.1 h5
+            · rw [if_neg h5]
+              have h5' : ev.credIdentity = ev.author := by simpa using h5
+              cases h6 : iTagBytes ev.tags with
+              | none => simp
+              | some b =>
+                simp only
+                by_cases h7 : b = ev.kpRef
+                · rw [if_pos h7]; simp [h1', h2', h3', h5', h7]; rw [← h5']; exact h4'
+                · rw [if_neg h7]; constructor
+                  · intro h; cases h
+                  · intro h; have := h.2.2.2.2.2.2; simp at this; exact absurd this h7
+
+/-! ### welcome rumors -/
+
+theorem wScan_eq (env : Env) : ∀ (tags : List Tag) (r e c : Bool),
+    wScan env tags (r, e, c) =
+      if tags.any (wTagBad env) then none
+      else some (r || tags.any wSetsRelays, e || tags.any wSetsE, c || tags.any wSetsEnc) := by
+  intro tags
+  induction tags with
+  | nil => intro r e c; simp [wScan]
+  | cons t ts ih =>
+    intro r e c
+    unfold wScan
+    by_cases hb : wTagBad env t = true
+    · simp [hb]
+    · have hb' : wTagBad env t = false := by simpa using hb
+      simp only [hb', Bool.false_eq_true, if_false, ih, List.any_cons, Bool.false_or, Bool.or_assoc]
+
+theorem wTagBad_false_iff (env : Env) (t : Tag) :
+    wTagBad env t = false ↔
+      (t.name = .relays → ∀ v ∈ t.vals, (env.relayParse v).isSome = true) ∧
+      (t.name = .client → ∃ v, t.content = some v ∧ v ≠ []) ∧
+      (t.name = .encoding → t.content = some Generated.encodingTagValue) := by
+  unfold wTagBad
+  cases hn : t.name <;> simp
+  · -- relays
+    cases hv : t.vals with
+    | nil => simp
+    | cons a as => simp
+  · -- client
+    cases hc : t.content with
+    | none => simp
+    | some v => simp
+
+end MdkVerif.Tags
